@@ -125,6 +125,7 @@ fn run_text(r: &Runner, parser: &str, layout: &str, input: &str) -> Option<RunOu
         ignore_expected: false,
         via_file: false,
         io_faults: vec![],
+        seq_prefix: vec![],
         damage: String::new(),
         fclass: "c12",
     };
@@ -594,8 +595,101 @@ fn work(args: &Args, entries: &[Entry], w: usize, nw: usize) -> Value {
             Err(_) => report::merge(&mut merged, &json!({"stats": {"c15_business": 1}})),
         }
     }
+    // parser reuse: a sentence must parse Ok whatever the same parser value
+    // parsed (and rejected) before
+    let n_items = all.len();
+    for pi in 0..r.registry.len() {
+        let idx = n_items + pi;
+        if idx % nw != w {
+            continue;
+        }
+        let p = &*r.registry[pi];
+        if p.partial() || p.bytes_input() || p.cyclic() {
+            continue;
+        }
+        let res = fork_collect(240_000, |wfd| {
+            let v = run_reuse_item(&r, entries, pi, thorough, args.seed, idx as u64);
+            let s = v.to_string();
+            let b = s.as_bytes();
+            let mut off = 0usize;
+            unsafe {
+                while off < b.len() {
+                    let n = libc::write(wfd, b[off..].as_ptr() as *const libc::c_void, b.len() - off);
+                    if n <= 0 {
+                        break;
+                    }
+                    off += n as usize;
+                }
+                libc::_exit(0);
+            }
+        });
+        match res {
+            Ok(text) => {
+                if let Ok(v) = serde_json::from_str::<Value>(&text) {
+                    report::merge(&mut merged, &v);
+                }
+            }
+            Err(_) => report::merge(&mut merged, &json!({"stats": {"c15_business": 1}})),
+        }
+    }
     r.cleanup();
     merged
+}
+
+fn run_reuse_item(r: &Runner, entries: &[Entry], pi: usize, thorough: bool, seed: u64, idx: u64) -> Value {
+    let p = &*r.registry[pi];
+    let mut st = Stats::default();
+    let mut viol: Vec<Value> = vec![];
+    let e = match entries.iter().find(|e| e.id == p.id()) {
+        Some(e) if e.sentences.iter().any(|s| s.valid) => e,
+        _ => return json!({"stats": st.to_json(), "violations": viol}),
+    };
+    let pool = crate::c15::reuse_pool(e);
+    let valid: Vec<usize> = pool
+        .iter()
+        .enumerate()
+        .filter(|(_, x)| x.1.starts_with("sentence ") && !x.1.contains(" torn") && !x.1.contains(" with ") && !x.1.contains(" twice") && !x.1.contains(" padded"))
+        .filter(|(_, x)| x.1.trim_start_matches("sentence ").parse::<usize>().ok().map(|i| e.sentences[i].valid).unwrap_or(false))
+        .map(|(k, _)| k)
+        .collect();
+    if valid.is_empty() {
+        return json!({"stats": st.to_json(), "violations": viol});
+    }
+    let mut rng = Rng::new(sub_seed(seed, 1212, fnv64(p.id().as_bytes()) ^ fnv64(p.layout().as_bytes())));
+    for _ in 0..if thorough { 100 } else { 10 } {
+        let len = rng.range(1, 4);
+        let mut seq: Vec<usize> = (0..len).map(|_| rng.usize(pool.len())).collect();
+        seq.push(*rng.pick(&valid));
+        let inputs: Vec<Vec<u8>> = seq.iter().map(|k| pool[*k].0.clone()).collect();
+        let outs = p.run_seq(&inputs, &RunCfg::default());
+        for (k, o) in outs.iter().enumerate() {
+            if !valid.contains(&seq[k]) {
+                continue;
+            }
+            st.cases += 1;
+            bump(&mut st.by_kind, "reuse");
+            let text = String::from_utf8_lossy(&inputs[k]).to_string();
+            let h = fnv64(format!("{}|{}|reuse|{:?}", p.id(), p.layout(), &inputs[..=k]).as_bytes());
+            st.distinct.insert(h);
+            match &o.out {
+                Out::Ok { .. } => {
+                    st.validated += 1;
+                    st.nontrivial.insert(h);
+                }
+                Out::ParseErr { pos, msg, .. } => {
+                    let key = format!("sentence-rejected-after-reuse|{}", p.id());
+                    if !viol.iter().any(|x| x["key"].as_str() == Some(&key)) {
+                        let case = json!({"kind": "c12-reuse", "parser": p.id(), "layout": p.layout(), "inputs": inputs[..=k].iter().map(|b| String::from_utf8_lossy(b).to_string()).collect::<Vec<_>>()});
+                        viol.push(Violation { property: "C12".into(), class: "sentence-rejected-after-reuse".into(), key, what: format!("a sentence was rejected by a parser value that had parsed other inputs before: error at offset {pos}: {} [{} {}; {} after {:?}; input {:?}]", msg.chars().take(80).collect::<String>(), p.id(), p.layout(), pool[seq[k]].1, seq[..k].iter().map(|x| pool[*x].1.clone()).collect::<Vec<_>>(), text.chars().take(60).collect::<String>()), case, index: idx }.to_json());
+                    }
+                }
+                Out::Panic(_) | Out::Budget => st.c15_business += 1,
+                _ => {}
+            }
+        }
+    }
+    let digests = std::mem::take(&mut st.digests);
+    json!({"stats": st.to_json(), "violations": viol, "digests": digests})
 }
 
 pub fn still_fails(r: &Runner, case: &Case, class: &str) -> bool {
@@ -660,9 +754,11 @@ pub fn run(args: &Args) -> i32 {
         if !known && !seen.insert(group) {
             continue;
         }
-        if let Some(case) = Case::from_json(&v.case) {
-            if !still_fails(&r, &case, &v.class) {
-                v.what.push_str(" [WARNING: did not reproduce on re-run]");
+        if v.case["kind"].as_str() != Some("c12-reuse") {
+            if let Some(case) = Case::from_json(&v.case) {
+                if !still_fails(&r, &case, &v.class) {
+                    v.what.push_str(" [WARNING: did not reproduce on re-run]");
+                }
             }
         }
         out.push(v);
@@ -711,6 +807,26 @@ pub fn run(args: &Args) -> i32 {
 
 pub fn replay(args: &Args, v: &Value, file: &std::path::Path) -> i32 {
     let r = Runner::new(args, 996);
+    if v["case"]["kind"].as_str() == Some("c12-reuse") {
+        let c = &v["case"];
+        let inputs: Vec<Vec<u8>> = c["inputs"].as_array().cloned().unwrap_or_default().iter().filter_map(|x| x.as_str().map(|s| s.as_bytes().to_vec())).collect();
+        let code = match r.parser(c["parser"].as_str().unwrap_or(""), c["layout"].as_str().unwrap_or("")) {
+            Some(p) => match p.run_seq(&inputs, &RunCfg::default()).pop().map(|o| o.out) {
+                Some(Out::ParseErr { pos, .. }) => {
+                    println!("VIOLATION property=C12 replay={}", file.display());
+                    println!("  class=sentence-rejected-after-reuse (error at offset {pos})");
+                    1
+                }
+                _ => {
+                    println!("replay: property C12 holds on this case now");
+                    0
+                }
+            },
+            None => 2,
+        };
+        r.cleanup();
+        return code;
+    }
     let code = match Case::from_json(&v["case"]) {
         Some(case) => match check(&r, &case, &mut Stats::default()) {
             Verdict::Violation { class, what } => {
